@@ -32,7 +32,8 @@ SPEC = {
             'agree / exact 2f+1 / 2f / two values both at threshold / missing, equal timestamps, 1-4 tokens, fee data; execute: '
             'the three plugin states, honest agreement, honest disagreement on executed sets (two commit data for one report both at f+1), '
             'two messages for one sequence number, two nonces for one sender, equal timestamps, the same instant spelled Z and +00:00. '
-            'Outcome and Reports are evaluated 16 times per case on fresh plugin instances (fresh Go maps), with a different own oracle id '
+            'Outcome and Reports are evaluated 16 times per case: 15 times on fresh plugin instances (fresh Go maps) and once on VETERAN instances that live across cases '
+            '(execute: one pair per DON size for the whole run; commit: one pair per world of three cases) whose home-chain view is re-pointed to the case (restart equivalence: a restarted oracle and a long-running one agree), with a different own oracle id '
             'and a different process time zone (time.Local: UTC, +02:00, +14:00, -05:00) each time; the observable is the number of distinct '
             '(outcome bytes, report bytes, transmission schedule) results; plus (C16_rep_exec_roles) four LONG-LIVED execute oracles over the real home-chain poller whose role map is re-drawn between rounds: '
             'the distinct schedules they attach to one outcome (exactly one, that of the role map fetched last). non-trivial = the outcome is non-empty (> 100 bytes); distinct by a digest of the full input',
